@@ -31,6 +31,7 @@ ASSUMPTIONS = [
     "ruff is replaced by an identity stand-in when the plugin formats its output",
 ]
 FLOORS = {"quick": {"histories": 3000, "ops_checked": 9000}, "thorough": {"histories": 150000, "ops_checked": 500000}}
+ANCHORS = ['Message.__setattr__', 'Message.__getattribute__', 'Message.__post_init__', 'Message._include_default_value_for_oneof']
 CONTRACTS = ["oneof", "bytes"]
 
 
